@@ -6,6 +6,7 @@
 -/
 import Jqawk.Lemmas.SelectorJunction
 import Jqawk.Lemmas.SelectorPlain
+import Jqawk.Lemmas.SelectorBiDriver
 
 set_option linter.unusedVariables false
 set_option linter.unusedSimpArgs false
@@ -55,13 +56,33 @@ structure NestedOK (h : Heap) (out : List Bytes) (faults : Nat) (s0 : St) : Prop
   flen : s0.frames.length = 1
   out : s0.out = out
   faults : s0.faults = faults
+  bp : lookupFrames s0.frames b!"printf" = some h.cells.size
+  bj : lookupFrames s0.frames b!"json" = some (h.cells.size + 1)
+  bn : lookupFrames s0.frames b!"num" = some (h.cells.size + 2)
+  c0 : s0.heap.get h.cells.size = .native .printf none none
+  c1 : s0.heap.get (h.cells.size + 1) = .native .json none none
+  c2 : s0.heap.get (h.cells.size + 2) = .native .num none none
 
 theorem newEvaluator_empty_ok (h : Heap) (out : List Bytes) (faults : Nat) :
     NestedOK h out faults (newEvaluator Program.empty h out faults) := by
-  refine ⟨rfl, rfl, ?_, ?_, rfl, rfl, rfl⟩
+  refine ⟨rfl, rfl, ?_, ?_, rfl, rfl, rfl, ?_, ?_, ?_, ?_, ?_, ?_⟩
   · rw [newEvaluator_empty_heap, size_alloc, size_alloc, size_alloc]
   · rw [newEvaluator_empty_heap]
     exact ((HeapPreserved.alloc _ _).trans (HeapPreserved.alloc _ _)).trans (HeapPreserved.alloc _ _)
+  · rfl
+  · show some ((h.alloc (.native .printf none none)).2.cells.size) = _
+    rw [size_alloc]
+  · show some (((h.alloc (.native .printf none none)).2.alloc (.native .json none none)).2.cells.size) = _
+    rw [size_alloc, size_alloc]
+  · rw [newEvaluator_empty_heap, get_alloc, get_alloc, get_alloc, size_alloc, size_alloc]
+    have e1 : ¬ h.cells.size = h.cells.size + 1 + 1 := by omega
+    have e2 : ¬ h.cells.size = h.cells.size + 1 := by omega
+    simp only [e1, e2, ↓reduceIte]
+  · rw [newEvaluator_empty_heap, get_alloc, get_alloc, size_alloc, size_alloc]
+    have e1 : ¬ h.cells.size + 1 = h.cells.size + 1 + 1 := by omega
+    simp only [e1, ↓reduceIte]
+  · rw [newEvaluator_empty_heap, get_alloc, size_alloc, size_alloc]
+    simp only [↓reduceIte]
 
 theorem getIdentifier_dollar (prog : Program) (t : Token) (ht : t.tag = .dollar) (s : St) (c : CellId)
     (hr : s.ruleRoot = some c) : getIdentifier prog t s = .ok c s := by
@@ -244,25 +265,89 @@ theorem nested_invK (h : Heap) (out : List Bytes) (faults : Nat) (v : JVal) (vA 
   have i2 := NP.newCell (P := Pn h) (K := KAny) i1.2 sAv i1.1
   exact ⟨⟨i2.1.heap, i2.1.frames, i2.1.ret⟩, ⟨sAv.heap.cells.size, rfl, i2.2⟩⟩
 
-theorem junction (prog : Program) (T : SelTok) (E : Expr) (hE : selX (fun _ => false) E = true)
+/-- the builtins of the main evaluator are what `NewEvaluator` made them (run B, when the
+    selector may call them) -/
+def BInv (progB : Program) (s : St) : Prop :=
+  ∃ h0, InvB (P3 progB) h0 b0m KAny s ∧ h0.get 0 = .native .printf none none ∧
+    h0.get 1 = .native .json none none ∧ h0.get 2 = .native .num none none
+
+structure BI (s : St) : Prop where
+  bp : lookupFrames s.frames b!"printf" = some 0
+  bj : lookupFrames s.frames b!"json" = some 1
+  bn : lookupFrames s.frames b!"num" = some 2
+  c0 : s.heap.get 0 = .native .printf none none
+  c1 : s.heap.get 1 = .native .json none none
+  c2 : s.heap.get 2 = .native .num none none
+  sz : 3 ≤ s.heap.cells.size
+
+theorem lookupFrames_single (f : Frame) (k : Bytes) : lookupFrames [f] k = botLookup [f] k := by
+  simp only [lookupFrames, botLookup, List.getLast?_singleton]
+  cases objLookup f.locals k <;> rfl
+
+theorem BInv.bi {progB : Program} {s : St} (h : BInv progB s) (hlen : s.frames.length = 1) : BI s := by
+  obtain ⟨h0, inv, e0, e1, e2⟩ := h
+  obtain ⟨f, hf⟩ : ∃ f, s.frames = [f] := by
+    cases hfr : s.frames with
+    | nil => rw [hfr] at hlen; cases hlen
+    | cons f fs =>
+      cases fs with
+      | nil => exact ⟨f, rfl⟩
+      | cons g gs => rw [hfr] at hlen; simp at hlen
+  have hb := inv.frames.bot
+  rw [hf] at hb
+  refine ⟨?_, ?_, ?_, ?_, ?_, ?_, inv.heap.nle⟩
+  · rw [hf, lookupFrames_single, hb _ (by decide)]; rfl
+  · rw [hf, lookupFrames_single, hb _ (by decide)]; rfl
+  · rw [hf, lookupFrames_single, hb _ (by decide)]; rfl
+  · rw [inv.heap.keep 0 (show 0 < 3 by decide), e0]
+  · rw [inv.heap.keep 1 (show 1 < 3 by decide), e1]
+  · rw [inv.heap.keep 2 (show 2 < 3 by decide), e2]
+
+theorem renV_native_plain {σ : Nat → Nat} {v : Val} {f : Native} (h : renV σ v = .native f none none) :
+    v = .native f none none := by
+  cases v with
+  | native g b sp =>
+    cases b <;> cases sp <;> simp_all [renV, renSpec]
+  | str s sp => cases sp <;> simp [renV, renSpec] at h
+  | nil sp => cases sp <;> simp [renV, renSpec] at h
+  | _ => simp [renV] at h
+
+theorem junction (prog : Program) (T : SelTok) (E : Expr) (ub : Bool)
+    (hE : selX (fun k => ub && isB k) E = true)
     (hwfE : E.wfB = true) (tbl : RuleTable) (sel : Bytes)
     (hparse : parseExpressionSrc tbl sel = .ok E) (v : JVal) {K : Ctx} (wf : K.WF) (h0 : K.a0 = 0)
     (h0' : K.o0 = 0) (hKA : K.progA = prog) (hKB : K.progB = withSel prog T E) {sA sB : St}
-    (hs : SR (mainX K) sA sB) (hlen : sB.frames.length = 1) :
+    (hs : SR (mainX K) sA sB) (hlen : sB.frames.length = 1)
+    (hub : ub = true → BInv (withSel prog T E) sB ∧ (withSel prog T E).wfB = true ∧
+      okProg (withSel prog T E) = true ∧ okE E = true) :
     JRel prog (withSel prog T E) sel (evalSelector tbl sel v sA) (ruleStep (withSel prog T E) T E v sB) := by
+  have hbi : ub = true → BI sB := fun h => (hub h).1.bi hlen
   have hnest := newEvaluator_empty_ok sA.heap sA.out sA.faults
   have hnv := nested_invK sA.heap sA.out sA.faults v
   generalize hs0 : newEvaluator Program.empty sA.heap sA.out sA.faults = s0 at hnest hnv
   -- the context of the first phase
   have hm : K.m ≤ sB.heap.cells.size := hs.heap.mle
   have hszc : sA.heap.cells.size = sB.heap.cells.size + K.d := hs.heap.szc
-  have wf1 := K1_wf wf sA.heap sB.heap hm (withSel prog T E)
-  have xwf1 : (X1 (K1 K sA.heap sB.heap (withSel prog T E)) s0.frames sB.frames).WF := by
-    refine ⟨wf1, ?_, .inr (fun name h => by cases h)⟩
-    show s0.frames.length = sB.frames.length
-    rw [hnest.flen, hlen]
+  have wf1 := K1_wf wf sA.heap sB.heap hm (withSel prog T E) ub hszc (fun h => (hbi h).sz)
+  have xwf1 : (X1 (K1 K sA.heap sB.heap (withSel prog T E) ub) s0.frames sB.frames (fun k => ub && isB k)).WF := by
+    refine ⟨wf1, ?_, .inr (fun name h => ?_)⟩
+    · show s0.frames.length = sB.frames.length
+      rw [hnest.flen, hlen]
+    · have h' : (ub && isB name) = true := h
+      simp only [Bool.and_eq_true] at h'
+      have hu := h'.1
+      have b := hbi hu
+      subst hu
+      have hn := h'.2
+      simp only [isB, Bool.or_eq_true, beq_iff_eq] at hn
+      have live : ∀ i, i < 3 → LiveC (K1 K sA.heap sB.heap (withSel prog T E) true) sB.heap.cells.size i :=
+        fun i hi => ⟨.inr ⟨rfl, hi⟩, Nat.lt_of_lt_of_le hi b.sz⟩
+      rcases hn with (rfl | rfl) | rfl
+      · exact ⟨_, _, hnest.bp, b.bp, (K1_σ_bi (i := 0) b.sz (by decide)).symm, live 0 (by decide)⟩
+      · exact ⟨_, _, hnest.bj, b.bj, (K1_σ_bi (i := 1) b.sz (by decide)).symm, live 1 (by decide)⟩
+      · exact ⟨_, _, hnest.bn, b.bn, (K1_σ_bi (i := 2) b.sz (by decide)).symm, live 2 (by decide)⟩
   -- the nested evaluator and the main evaluator of run B are related in that context
-  have hsr0 : SR (X1 (K1 K sA.heap sB.heap (withSel prog T E)) s0.frames sB.frames) s0 sB := by
+  have hsr0 : SR (X1 (K1 K sA.heap sB.heap (withSel prog T E) ub) s0.frames sB.frames (fun k => ub && isB k)) s0 sB := by
     refine ⟨⟨?_, Nat.le_refl _, ?_, Nat.le_refl _, ?_, Nat.le_refl _, ?_, ?_, ?_, ?_⟩, ?_, (fun h => by cases h),
       (fun h => by cases h), ?_, ?_⟩
     · show s0.heap.cells.size = sB.heap.cells.size + (K.d + 3)
@@ -270,7 +355,18 @@ theorem junction (prog : Program) (T : SelTok) (E : Expr) (hE : selX (fun _ => f
     · rw [hnest.arrs]; exact hs.heap.sza
     · rw [hnest.objs]; exact hs.heap.szo
     · intro i hi
-      exact absurd hi.2 (Nat.not_lt.mpr hi.1)
+      rcases hi.1 with h1 | ⟨hu, h3⟩
+      · exact absurd hi.2 (Nat.not_lt.mpr h1)
+      · have b := hbi hu
+        subst hu
+        show ValR _ _ (s0.heap.get ((K1 K sA.heap sB.heap (withSel prog T E) true).σ i)) _
+        rw [K1_σ_bi b.sz h3]
+        have natR : ∀ (f : Native), ValR (K1 K sA.heap sB.heap (withSel prog T E) true) sB.heap.cells.size
+            (.native f none none) (.native f none none) := fun f => ⟨rfl, trivial, trivial⟩
+        rcases lt3 i h3 with rfl | rfl | rfl
+        · rw [show sA.heap.cells.size + 0 = sA.heap.cells.size from rfl, hnest.c0, b.c0]; exact natR _
+        · rw [hnest.c1, b.c1]; exact natR _
+        · rw [hnest.c2, b.c2]; exact natR _
     · intro k hk
       have hk' : sB.heap.arrs.size ≤ k := hk
       rw [arr_oob _ k hk', arr_oob _ k (by rw [hnest.arrs, hs.heap.sza]; exact hk')]
@@ -311,25 +407,45 @@ theorem junction (prog : Program) (T : SelTok) (E : Expr) (hE : selX (fun _ => f
   have hszv : sAv.heap.cells.size = sBv.heap.cells.size + (K.d + 3) := hsr1.heap.szc
   have hs0sz : s0.heap.cells.size = sB.heap.cells.size + (K.d + 3) := by rw [hnest.size, hszc]; omega
   -- `$` is set in both runs
-  have hsrd : SR (X1 (K1 K sA.heap sB.heap (withSel prog T E)) s0.frames sB.frames).withD
+  have hsrd : SR (X1 (K1 K sA.heap sB.heap (withSel prog T E) ub) s0.frames sB.frames (fun k => ub && isB k)).withD
       (stAd sAv vA) (stBd sBv vB) :=
     SR.addD ⟨hsr2.heap, hsr2.frames, (fun h => by cases h), (fun h => by cases h), hsr2.out, hsr2.faults⟩ hc2
-  have g1 : GoodX (X1 (K1 K sA.heap sB.heap (withSel prog T E)) s0.frames sB.frames).withD :=
+  have g1 : GoodX (X1 (K1 K sA.heap sB.heap (withSel prog T E) ub) s0.frames sB.frames (fun k => ub && isB k)).withD :=
     ⟨WF_withD xwf1, fun i f hf _ => by
       have : (Program.empty.functions[i]? : Option FuncDef) = some f := hf
       simp [Program.empty] at this⟩
-  have hids : idsE true (fun _ => false) E = true := selX_ids _ E hE
+  have hids : idsE true (fun k => ub && isB k) E = true := selX_ids _ E hE
   -- the nested evaluator: region invariant, members of its containers are plain
   have hinvA : InvK (Pn sA.heap) (KSet (Pn sA.heap)) (stAd sAv vA) := hnv vA sAv eA1
   have hmphA : MPH (Pn sA.heap) sAv.heap.cells.size (stAd sAv vA).heap := by
     have hck : ∀ x, x < sAv.heap.cells.size → (sAv.heap.alloc vA).2.get x = sAv.heap.get x := by
       intro x hx
       rw [get_alloc]; simp only [Nat.ne_of_lt hx, ↓reduceIte]
-    have key : ∀ y, sB.heap.cells.size ≤ y → y < sBv.heap.cells.size →
-        PC sAv.heap.cells.size (sAv.heap.alloc vA).2 ((K1 K sA.heap sB.heap (withSel prog T E)).σ y) := by
-      intro y y1 y2
+    have key : ∀ y, (K1 K sA.heap sB.heap (withSel prog T E) ub).D y → y < sBv.heap.cells.size →
+        PC sAv.heap.cells.size (sAv.heap.alloc vA).2 ((K1 K sA.heap sB.heap (withSel prog T E) ub).σ y) := by
+      intro y yd y2
+      by_cases hb : ub = true ∧ y < 3
+      · -- a builtin cell of the nested evaluator
+        obtain ⟨hu, y3⟩ := hb
+        have b := hbi hu
+        subst hu
+        rw [K1_σ_bi b.sz y3]
+        have hle0 : s0.heap.cells.size ≤ sAv.heap.cells.size := cA1.pres.cells
+        have hlt0 : sA.heap.cells.size + y < s0.heap.cells.size := by
+          rw [hnest.size]; exact Nat.add_lt_add_left y3 _
+        have hlt : sA.heap.cells.size + y < sAv.heap.cells.size := Nat.lt_of_lt_of_le hlt0 hle0
+        refine ⟨Nat.ne_of_lt hlt, by rw [size_alloc]; exact Nat.lt_succ_of_lt hlt, ?_⟩
+        rw [hck _ hlt, cA1.pres.get _ hlt0]
+        rcases lt3 y y3 with rfl | rfl | rfl
+        · rw [show sA.heap.cells.size + 0 = sA.heap.cells.size from rfl, hnest.c0]; exact ⟨rfl, rfl⟩
+        · rw [hnest.c1]; exact ⟨rfl, rfl⟩
+        · rw [hnest.c2]; exact ⟨rfl, rfl⟩
+      have y1 : sB.heap.cells.size ≤ y := by
+        rcases yd with h | h
+        · exact h
+        · exact absurd h hb
       have hn : ¬ y < sB.heap.cells.size := Nat.not_lt.mpr y1
-      have e : (K1 K sA.heap sB.heap (withSel prog T E)).σ y = y + (K.d + 3) := by simp only [K1, hn, ↓reduceIte]
+      have e : (K1 K sA.heap sB.heap (withSel prog T E) ub).σ y = y + (K.d + 3) := by simp only [K1, hn, ↓reduceIte]
       rw [e]
       have hlt : y + (K.d + 3) < sAv.heap.cells.size := by rw [hszv]; exact Nat.add_lt_add_right y2 _
       refine ⟨Nat.ne_of_lt hlt, by rw [size_alloc]; exact Nat.lt_succ_of_lt hlt, ?_⟩
@@ -356,6 +472,16 @@ theorem junction (prog : Program) (T : SelTok) (E : Expr) (hE : selX (fun _ => f
       obtain ⟨y, hy, rfl⟩ := List.mem_map.mp hkc'
       have hl := hob.2 y hy
       exact key y.2 hl.1 hl.2
+  -- run B: the invariant that keeps the builtins intact
+  have hinvBd : ub = true → ∃ h0, InvB (P3 (withSel prog T E)) h0 b0m (KSet (P3 (withSel prog T E))) (stBd sBv vB) ∧
+      ∀ i, i < 3 → sB.heap.get i = h0.get i := by
+    intro hu
+    obtain ⟨⟨h0, inv, _, _, _⟩, _, _, _⟩ := hub hu
+    have i1 := BP.newValueJson (P := P3 (withSel prog T E)) (h0 := h0) (b0 := b0m) (K := KAny) v sB inv
+    unfold BPat at i1
+    rw [eB1] at i1
+    have i2 := i1.1.heap.alloc i1.2
+    exact ⟨h0, ⟨i2.1, i1.1.frames, i1.1.ret, i1.1.root, ⟨sBv.heap.cells.size, rfl, i2.2⟩⟩, inv.heap.keep⟩
   have eqA := selectorRun_eq v E s0 vA sAv eA1
   have eqB := ruleStep_eq (withSel prog T E) T E v sB vB sBv eB1
   have hszd : (stBd sBv vB).heap.cells.size = sBv.heap.cells.size + 1 := size_alloc _ _
@@ -365,14 +491,14 @@ theorem junction (prog : Program) (T : SelTok) (E : Expr) (hE : selX (fun _ => f
   have hszdA : (stAd sAv vA).heap.cells.size = sAv.heap.cells.size + 1 := size_alloc _ _
   have hfrBd : (stBd sBv vB).frames = sBv.frames := rfl
   have hrootBd : (stBd sBv vB).root = sBv.root := rfl
-  revert hsrd hinvA hmphA eqA eqB hszd hgetcA hszdA hfrBd hrootBd
+  revert hsrd hinvA hmphA hinvBd eqA eqB hszd hgetcA hszdA hfrBd hrootBd
   generalize stAd sAv vA = sAd
   generalize stBd sBv vB = sBd
-  intro hsrd hinvA hmphA eqA eqB hszd hgetcA hszdA hfrBd hrootBd
-  have rE : RR _ (CellR (K1 K sA.heap sB.heap (withSel prog T E)))
+  intro hsrd hinvA hmphA hinvBd eqA eqB hszd hgetcA hszdA hfrBd hrootBd
+  have rE : RR _ (CellR (K1 K sA.heap sB.heap (withSel prog T E) ub))
       sBd.heap.cells.size (evalExpr Program.empty evalFuel E sAd) (evalExpr (withSel prog T E) 999995 E sBd) :=
     (allSim evalFuel 999995).expr g1 sBd.heap.cells.size E hids sAd sBd hsrd (Nat.le_refl _)
-  have plA' := (allPl (P := Pn sA.heap) (rc := sAv.heap.cells.size) rfl (fun _ => false) evalFuel).expr E sAd hE hwfE
+  have plA' := (allPl (P := Pn sA.heap) (rc := sAv.heap.cells.size) rfl (fun k => ub && isB k) evalFuel).expr E sAd hE hwfE
     hinvA hmphA
   have sfB := (allSafe (withSel prog T E) 999995).expr E sBd
   rw [evalSelector_eq tbl sel E hparse, hs0, eqA, eqB]
@@ -401,19 +527,19 @@ theorem junction (prog : Program) (T : SelTok) (E : Expr) (hE : selX (fun _ => f
     | ok xB sBe =>
       obtain ⟨hwE, hcx, hsrE⟩ := rE
       obtain ⟨ckA, mphE, _⟩ := plA'
-      have hK1e : HR (K1 K sA.heap sB.heap (withSel prog T E)) sAe.heap sBe.heap := hsrE.heap
+      have hK1e : HR (K1 K sA.heap sB.heap (withSel prog T E) ub) sAe.heap sBe.heap := hsrE.heap
       have hszE : sAe.heap.cells.size = sBe.heap.cells.size + (K.d + 3) := hK1e.szc
       -- sizes
       have hc1 : sB.heap.cells.size ≤ sBv.heap.cells.size := cB1.pres.cells
       have hc2' : sBv.heap.cells.size < sBe.heap.cells.size := by omega
-      have hσc : (K1 K sA.heap sB.heap (withSel prog T E)).σ sBv.heap.cells.size = sAv.heap.cells.size := by
+      have hσc : (K1 K sA.heap sB.heap (withSel prog T E) ub).σ sBv.heap.cells.size = sAv.heap.cells.size := by
         have hn : ¬ sBv.heap.cells.size < sB.heap.cells.size := Nat.not_lt.mpr hc1
         simp only [K1, hn, ↓reduceIte]; omega
       -- `$` of run B holds a plain value, which needs no creation
-      have hcellc := hK1e.cells sBv.heap.cells.size ⟨hc1, hc2'⟩
+      have hcellc := hK1e.cells sBv.heap.cells.size ⟨.inl hc1, hc2'⟩
       rw [hσc, ckA.2 _ (by omega), hgetcA] at hcellc
       have hplc : Val.plain (sBe.heap.get sBv.heap.cells.size) := by
-        apply plain_of_renV (σ := (K1 K sA.heap sB.heap (withSel prog T E)).σ)
+        apply plain_of_renV (σ := (K1 K sA.heap sB.heap (withSel prog T E) ub).σ)
         rw [← hcellc.1]; exact plA
       have hn : needsCreate (sBe.heap.get sBv.heap.cells.size) = false := needsCreate_plain hplc
       -- the value to copy
@@ -435,26 +561,49 @@ theorem junction (prog : Program) (T : SelTok) (E : Expr) (hE : selX (fun _ => f
           intro k hk x hx
           have har := hK1e.arrs k hk
           have hl := har.2 x hx
-          have hxA' : (K1 K sA.heap sB.heap (withSel prog T E)).σ x ∈ (sAe.heap.arr k).toList := by
+          have hxA' : (K1 K sA.heap sB.heap (withSel prog T E) ub).σ x ∈ (sAe.heap.arr k).toList := by
             rw [har.1, Array.toList_map]; exact List.mem_map_of_mem hx
           have hpc := mphE.arrs k (by show sA.heap.arrs.size ≤ k; rw [hs.heap.sza]; exact hk) _ hxA'
           refine ⟨fun e => hpc.1 (by rw [e]; exact hσc), ?_⟩
-          apply plain_of_renV (σ := (K1 K sA.heap sB.heap (withSel prog T E)).σ)
+          apply plain_of_renV (σ := (K1 K sA.heap sB.heap (withSel prog T E) ub).σ)
           rw [← (hK1e.cells x hl).1]; exact hpc.2.2
         have hmemO : ∀ k, sB.heap.objs.size ≤ k → ∀ kc ∈ sBe.heap.obj k,
             kc.2 ≠ sBv.heap.cells.size ∧ Val.plain (sBe.heap.get kc.2) := by
           intro k hk kc hkc
           have hob := hK1e.objs k hk
           have hl := hob.2 kc hkc
-          have hxA' : (kc.1, (K1 K sA.heap sB.heap (withSel prog T E)).σ kc.2) ∈ sAe.heap.obj k := by
-            rw [hob.1]; exact List.mem_map_of_mem (f := fun kc => (kc.1, (K1 K sA.heap sB.heap (withSel prog T E)).σ kc.2)) hkc
+          have hxA' : (kc.1, (K1 K sA.heap sB.heap (withSel prog T E) ub).σ kc.2) ∈ sAe.heap.obj k := by
+            rw [hob.1]; exact List.mem_map_of_mem (f := fun kc => (kc.1, (K1 K sA.heap sB.heap (withSel prog T E) ub).σ kc.2)) hkc
           have hpc := mphE.objs k (by show sA.heap.objs.size ≤ k; rw [hs.heap.szo]; exact hk) _ hxA'
-          refine ⟨fun e => hpc.1 (by show (K1 K sA.heap sB.heap (withSel prog T E)).σ kc.2 = _; rw [e]; exact hσc), ?_⟩
-          apply plain_of_renV (σ := (K1 K sA.heap sB.heap (withSel prog T E)).σ)
+          refine ⟨fun e => hpc.1 (by show (K1 K sA.heap sB.heap (withSel prog T E) ub).σ kc.2 = _; rw [e]; exact hσc), ?_⟩
+          apply plain_of_renV (σ := (K1 K sA.heap sB.heap (withSel prog T E) ub).σ)
           rw [← (hK1e.cells kc.2 hl).1]; exact hpc.2.2
         have hfun : prog.functions = (withSel prog T E).functions := rfl
-        have hheap := junction_heap wf h0 h0' prog (withSel prog T E) hKA hKB hfun hs.heap hK1e
-          sBv.heap.cells.size hc1 hc2' hmemA hmemO w hwp
+        -- the builtins of run B, and the members of its containers, after the expression
+        have hinvBe : ub = true → ∃ h0, InvB (P3 (withSel prog T E)) h0 b0m (KSet (P3 (withSel prog T E))) sBe ∧
+            ∀ i, i < 3 → sB.heap.get i = h0.get i := by
+          intro hu
+          obtain ⟨h0, inv, hk⟩ := hinvBd hu
+          obtain ⟨_, hwfP, hokP, hokE⟩ := hub hu
+          have i3 := (allBP (P3 (withSel prog T E)) h0 b0m (withSel prog T E) (Nat.le_refl _)
+            (Program.wfB_functions hwfP) (okProg_functions hokP) 999995).expr E hwfE hokE sBd inv
+          unfold BPat at i3
+          rw [hEB] at i3
+          exact ⟨h0, i3.1, hk⟩
+        have hbiB : ub = true → ∀ i, i < 3 → sBe.heap.get i = sB.heap.get i := by
+          intro hu i hi
+          obtain ⟨h0, inv, hk⟩ := hinvBe hu
+          rw [inv.heap.keep i hi, hk i hi]
+        have hbiA : ub = true → ∀ k, sB.heap.arrs.size ≤ k → ∀ x ∈ (sBe.heap.arr k).toList, 3 ≤ x := by
+          intro hu k _ x hx
+          obtain ⟨h0, inv, _⟩ := hinvBe hu
+          exact inv.heap.arrs k (Nat.zero_le _) x hx
+        have hbiO : ub = true → ∀ k, sB.heap.objs.size ≤ k → ∀ kc ∈ sBe.heap.obj k, 3 ≤ kc.2 := by
+          intro hu k _ kc hkc
+          obtain ⟨h0, inv, _⟩ := hinvBe hu
+          exact inv.heap.objs k (Nat.zero_le _) kc hkc
+        have hheap := junction_heap wf h0 h0' prog (withSel prog T E) hKA hKB hfun hs.heap ub hK1e
+          sBv.heap.cells.size hc1 hc2' hmemA hmemO hbiB hbiA hbiO w hwp
         have wf2 := K2_wf wf (rA := sAe.heap.cells.size) (fun i => Val.plain (sBe.heap.get i)) hm hc1 hc2' hszE
           prog (withSel prog T E)
         -- frames and root of run B are those of before
